@@ -88,7 +88,7 @@ Ltac ins_case :=
 Lemma step_preserves kd st o : Forall links_ok st -> Forall P st -> Forall P (fst (step kd st o)).
 Proof.
   intros Hlk Hst. unfold HashModel.step. destruct (op_allowed kd o); cbn [negb]; [|cbn [fst]; auto].
-  destruct o as [x c|x|x k|x k|x pos k v|x k v|x k v|x k|x r|x r|x|x|x|x y|x|x|x y|x y|x y|x y|x y|x k v].
+  destruct o as [x c|x|x k|x k|x pos k v|x k v|x k v|x k|x r|x r|x|x|x|x y|x|x|x y|x y|x y|x y|x y|x k v|x|x].
   - destruct (c <? 0); [cbn [fst]; auto|]. apply with_var_pres; auto; intros t Ht; cbn [fst]; auto.
   - apply with_var_pres; auto; intros t Ht; cbn [fst]; auto.
   - apply with_var_pres; auto; intros t Ht; cbn [fst]; auto.
@@ -114,6 +114,8 @@ Proof.
   - apply with_2_pres; auto. intros a b Ia Ib Ha Hb. cbn [fst]. apply Forall_upd; auto. apply remove_all_pres; auto.
   - apply with_var_pres; auto. intros t Ht. destruct (find_node t k) as [[r n]|] eqn:Ef; cbn [fst]; auto.
     apply P_setval; auto. eapply find_node_nth; eauto.
+  - apply with_var_pres; auto; intros t Ht; cbn [fst]; auto.
+  - apply with_var_pres; auto; intros t Ht; cbn [fst]; auto.
 Qed.
 
 End Preserve.
@@ -298,6 +300,18 @@ Proof.
   - exact pool_take.
   - intros t r n v H Hn. apply pool_setval; auto.
 Qed.
+
+(* in particular no two live items share a slot: what the backward traversal relies on *)
+Lemma pool_slots_nodup t : pool_ok t -> slots_nodup K t.
+Proof.
+  intros [H _]. unfold slots in H. unfold slots_nodup. revert H. generalize (map nslot (order t)) (free t).
+  intros a b. induction a as [|h a IH]; cbn [app]; intros H; [constructor|].
+  inversion H as [|? ? Hni Hn]; subst. constructor; [|apply IH; exact Hn].
+  intros Hi. apply Hni. apply in_or_app. left. exact Hi.
+Qed.
+
+Lemma pool_slots_nodup_all st : Forall pool_ok st -> Forall (slots_nodup K) st.
+Proof. intros H. eapply Forall_impl; [|exact H]. exact pool_slots_nodup. Qed.
 
 Lemma pool_start caps : Forall pool_ok (start K caps).
 Proof.
